@@ -137,7 +137,7 @@ def lean_extra(prop="C02"):
 
 def run(ctx):
     ctx.audit(extra_modules=lean_extra("C02"))
-    n = 150 if not ctx.thorough() else 3000
+    n = 150 if not ctx.thorough() else 2000
     A.sweep(ctx, n, KINDS, ["lossless"], SIGS, corpus=CORPUS, p_zip=0.25)
     # completions racing emissions: a completion and one or two emissions in ONE loop callback (no settling in between)
     A.sweep(ctx, n // 3, KINDS, ["lossless"], SIGS, p_zip=0.1, opts={"p_multi": 0.3})
